@@ -270,12 +270,14 @@ def run_trace_check(ops_lines, module='TraceUrl', config='default', tag='run', n
     # a TLC start costs ~8 s of CPU (JVM + parsing the specification): do not split small workloads 16 ways
     per_shard = {'TracePattern': 60, 'TraceIdna': 150, 'TraceSched': 50, 'TraceCApi': 600}.get(module, 400)
     nshards = max(1, min(nshards, len(ops_lines) // per_shard))
+    # ... and do not let one TLC run grow beyond ~20x that either (thorough tier): more shards than cores run in waves
+    nshards = max(nshards, -(-len(ops_lines) // (20 * per_shard)))
     shards = split_ops(ops_lines, nshards)
 
     def one(i):
         sh_ops = [ln for e in shards[i] for ln in e]
-        opsf = os.path.join(work, 's%02d.ops' % i)
-        trf = os.path.join(work, 's%02d.ndjson' % i)
+        opsf = os.path.join(work, 's%03d.ops' % i)
+        trf = os.path.join(work, 's%03d.ndjson' % i)
         open(opsf, 'w').write('\n'.join(sh_ops) + '\n')
         status, o = record(exe, opsf, trf, extra_args=exec_args)
         if validate:
